@@ -55,7 +55,12 @@ pub fn number_regex_parser(config: &SmartCalcConfig, tokinizer: &mut Tokinizer, 
             }
             else if let Some(decimal) = capture.name("DECIMAL") {
                 parse_end = decimal.end();
-                number = match decimal.as_str().replace(&config.thousand_separator[..], "").replace(&config.decimal_seperator[..], ".").parse::<f64>() {
+                let (thousand_separator, decimal_seperator) = match tokinizer.use_default_separators {
+                    true => ("", "."),
+                    false => (&config.thousand_separator[..], &config.decimal_seperator[..])
+                };
+
+                number = match decimal.as_str().replace(thousand_separator, "").replace(decimal_seperator, ".").parse::<f64>() {
                     Ok(num) => {
                         number_match = Some(decimal);
                         match capture.name("NOTATION") {
